@@ -17,8 +17,10 @@ for d in $(ls $SRC | grep -E -e "${REF_FILTER:-.}"); do
   alarms=""
   for id in $IDS; do
     out=$(cd /verif && timeout 900 $T/lvc check $id --repo $M 2>&1)
-    if [ $? -ne 0 ]; then
+    rc=$?
+    if [ $rc -ne 0 ]; then
       ob=$(echo "$out" | grep "^VIOLATION" | sed 's/.*obligation=\([^ ]*\).*/\1/' | head -3 | tr '\n' ' ')
+      [ -n "$ob" ] || { ob="CHECKER-FAILURE exit=$rc"; echo "$out" | tail -30 > $T-failure-$d-$id.txt; }
       alarms="$alarms [$id: $ob]"
     fi
   done
